@@ -638,7 +638,23 @@ impl World {
             }
 
             let len = self.facts.len();
+            #[cfg(biscuit_auth_verif)]
+            let verif_new = if crate::verif::enabled() {
+                Some(crate::verif::factset_json(&new_facts, symbols))
+            } else {
+                None
+            };
             self.facts.merge(new_facts);
+            #[cfg(biscuit_auth_verif)]
+            if let Some(new) = verif_new {
+                crate::verif::emit(format!(
+                    "{{\"ev\":\"iter\",\"index\":{},\"before\":{},\"after\":{},\"new\":{}}}",
+                    index,
+                    len,
+                    self.facts.len(),
+                    new
+                ));
+            }
             if self.facts.len() == len {
                 break Ok(());
             }
@@ -661,6 +677,18 @@ impl World {
         };
 
         self.iterations += index;
+
+        #[cfg(biscuit_auth_verif)]
+        crate::verif::emit(format!(
+            "{{\"ev\":\"run-exit\",\"passes\":{},\"iterations\":{},\"facts\":{},\"result\":\"{}\"}}",
+            index,
+            self.iterations,
+            self.facts.len(),
+            match &res {
+                Ok(()) => "ok".to_string(),
+                Err(e) => format!("{:?}", e).replace('"', "'"),
+            }
+        ));
 
         res
     }
